@@ -21,18 +21,27 @@ LEVEL_TEXT = ("Lean, for every offset-free plan the model can produce - sound or
               "exactly, proved for the planner itself (convert_self: the plan is the identity hop followed by 1/prefix); round trip "
               "and route independence are proved at full strength under the hypothesis that each leg's coefficient is its size ratio "
               "(round_trip, route_independent). Per run the kernel evaluates the planner on the family: plans are offset-free with "
-              "positive constants and there-and-back coefficients multiply to 1 (family_round_trip). Tied to the code by "
-              "differential execution and the oracle on triples of units.")
+              "positive constants and there-and-back coefficients multiply to 1 (family_round_trip). For the DIRECT FRAGMENT the "
+              "planner itself is proved (Proofs/PathSound, GraphHist): in every state reached by unit operations, declarations "
+              "consistent with a size assignment and directly settled conversions, in any order, whatever non-empty path "
+              "_find_path_recursive/_reduce_dimension return multiplies to size(start)/size(stop) (findPath_sound, through every "
+              "recursion, gcd-root reduction and re-raising), so a directly settled conversion is exact, there-and-back is the "
+              "identity and a route via an intermediate unit agrees with the direct one (direct_conversion_exact, "
+              "direct_round_trip, direct_route_independent); hypotheses shown inhabited on the regenerated registries "
+              "(direct_fragment_inhabited). Tied to the code by differential execution and the oracle on triples of units.")
 LEVEL_NOTE = ("Round trip / route independence for arbitrary units inherit C04's partiality (same known findings). Float self-"
               "conversion of a prefixed unit multiplies by p and then by 1/p (one ulp); the oracle uses 1e-12.")
-TECHNIQUE = "Lean 4 proofs (linearity of plans; self-conversion of the planner; conditional round-trip/route) + kernel-evaluated family + differential correspondence + oracle"
+TECHNIQUE = "Lean 4 proofs (linearity of plans; self-conversion of the planner; path search proved sound, direct conversions exact over all histories; conditional round-trip/route elsewhere) + kernel-evaluated family + differential correspondence + oracle"
 
 THEOREMS = [
     "Measured.C05.convert_linear", "Measured.C05.convert_zero", "Measured.C05.convert_sign",
     "Measured.C05.convert_proportional", "Measured.C05.convert_self", "Measured.C05.round_trip",
     "Measured.C05.route_independent", "Measured.Obligations.family_round_trip", "Measured.Obligations.planShapeOk_sound",
+    "Measured.findPath_sound", "Measured.equate_graphOK", "Measured.reach_graphOK",
+    "Measured.C05.direct_conversion_exact", "Measured.C05.direct_round_trip", "Measured.C05.direct_route_independent",
+    "Measured.Obligations.Direct.c0_graphOK", "Measured.Obligations.Direct.direct_fragment_inhabited",
 ]
-LEAN_TARGETS = ["Props.C05", "Obligations.C05"]
+LEAN_TARGETS = ["Props.C05", "Obligations.C05", "Obligations.C05Direct"]
 QUICK = {"chunks": 4, "ops": 1500}
 THOROUGH = {"chunks": 16, "ops": 9000}
 RTOL = 1e-11
